@@ -165,7 +165,7 @@ CHECKS = {
        "emits the expected result of every operator on all ordered pairs of a boundary lattice (59 / 122 values), a string lattice, all numeral strings up to length 4 / 5 and "
        "seeded random operands; every determined result is compared bit-exactly with golua, with operands as literals and as runtime values. LuaNumSrc.tla covers numerals written in "
        "the program text: every 2^k+d (k in 0..64), 12-15 spellings, negations, 27-34 constant expressions, in 44 syntactic positions, also through string.dump + load",
-  note="^ is checked by subtype only; float %, fmod and // only where determined; subnormals, NaN payloads and transcendental functions are not compared; open findings C02-1/2/3/5",
+  note="^ is exact for the special cases of C99 Annex F (zeros, infinities, NaN, 1, negative base with non-integer exponent) and checked by subtype only otherwise; float %, fmod and // only where determined; subnormals, NaN payloads and transcendental functions are not compared; open findings C02-1/2/3/5",
   technique="TLA+ specs LuaNum.tla + BigInt.tla evaluated by TLC over a lattice, laws checked on the spec, tabular comparison with the real runtime (direction A)"),
  "C15": dict(
   level="model_checking", ref="5 C15 and notes/C15.md",
